@@ -33,6 +33,11 @@ Theorem C03_custom_data : cd_check cd_layout = true.
 Proof. vm_compute; reflexivity. Qed.
 Print Assumptions C03_custom_data.
 
+(* no body of the current tree publishes the running thread before its context is saved *)
+Theorem C03_publish_after_save : forallb pub_check bodies = true.
+Proof. vm_compute; reflexivity. Qed.
+Print Assumptions C03_publish_after_save.
+
 (* the soundness theorem instantiated on every pair of context-switch sites of the current tree *)
 Theorem C03_current_tree :
   forall (lblf : Z -> Z -> Z) (cb : Z -> state -> state) (hi : Z), abi_callee hi cb ->
@@ -65,7 +70,7 @@ Print Assumptions C03_current_tree.
 (* every suspending site of the current tree, its depth and context register; every site's kind *)
 Eval vm_compute in (map (fun s => (sid s, site_summary s)) sites).
 '''
-GEN_THEOREMS = ["C03_all_sites", "C03_make_context", "C03_custom_data", "C03_current_tree"]
+GEN_THEOREMS = ["C03_all_sites", "C03_make_context", "C03_custom_data", "C03_publish_after_save", "C03_current_tree"]
 
 
 def gen_dir(ctx):
@@ -98,6 +103,8 @@ Goal True. idtac "@@MK". Abort.
 Eval vm_compute in (mk_check_empty mk_empty_ops, mk_check_voidcall mk_voidcall_ops).
 Goal True. idtac "@@MKDIAG". Abort.
 Eval vm_compute in (map (fun x => (0, x)) (diag_mk false mk_empty_ops) ++ map (fun x => (1, x)) (diag_mk true mk_voidcall_ops)).
+Goal True. idtac "@@PUB". Abort.
+Eval vm_compute in (map (fun b => (Z.of_nat (length b), pub_check b)) bodies).
 Goal True. idtac "@@CD". Abort.
 Eval vm_compute in (cd_check cd_layout, cd_check cd_layout).
 Goal True. idtac "@@CDDIAG". Abort.
@@ -125,6 +132,7 @@ Goal True. idtac "@@END". Abort.
         res["mk"] = (m.group(1) == "true", m.group(2) == "true")
     for m in re.finditer(q, sec.get("MKDIAG", "")):
         res["mkdiag"].append((int(m.group(1)),) + tuple(int(x) for x in m.groups()[1:]))
+    res["pub"] = [m.group(2) == "true" for m in re.finditer(r"\(\s*(\d+), (true|false)\)", sec.get("PUB", ""))]
     m = re.search(r"\(\s*(true|false),\s*(true|false)\)", sec.get("CD", ""))
     res["cd"] = (m.group(1) == "true") if m else None
     res["cddiag"] = list(dict.fromkeys(tuple(int(x) for x in m.groups()[1:]) for m in re.finditer(q, sec.get("CDDIAG", ""))))
@@ -199,6 +207,10 @@ def static_part(ctx, hand_ok):
         "asm_statements_touching_rsp_but_not_writing_it": tr["others"],
         "make_context_empty": {"source_statements": tr["mk"]["empty_src"], "ops": tr["mk"]["empty"]},
         "make_context_voidcall": {"source_statements": tr["mk"]["voidcall_src"], "ops": tr["mk"]["voidcall"]},
+        "publication_order": {"callbacks": tr["publish"]["callbacks"],
+                              "helpers_publishing_a_parameter": tr["publish"]["helpers_publishing_a_parameter"],
+                              "bodies": [{"function": b["name"], "line": b["line"], "events": ["%s %s" % e for e in b["events"]]}
+                                         for b in tr["publish"]["bodies"]]},
         "custom_data_carve": {"interpretation": tr["carve"]["notes"], "not_understood": tr["carve"]["unknown"],
                               "stack_top_empty": repr(tr["carve"]["empty"]), "stack_top_voidcall": repr(tr["carve"]["voidcall"]),
                               "custom_data_ptr": repr(tr["carve"]["ptr"])},
@@ -219,10 +231,15 @@ def static_part(ctx, hand_ok):
                       "(the library no longer uses the inline amd64 context switch, or the translator is out of date)",
                       {"theorem_or_correspondence": "C03_all_sites (would hold vacuously)", "per_tu": tr["per_tu"]}, found=False)
         return 1, tr
+    if not tr["publish"]["bodies"]:
+        ctx.violation("translator", "no function body containing a context-switch statement found in the preprocessed sources",
+                      {"theorem_or_correspondence": "C03_publish_after_save (would hold vacuously)"}, found=False)
+        nviol += 1
     rc, out = (1, "hand-written Coq development did not build") if not hand_ok else coqc(d, "CtxAsmGen.v")
     stm = {"C03_all_sites": "forallb ctx_check sites = true   (sites = the %d asm statements extracted on this run)" % len(sites),
            "C03_make_context": "mk_check_empty mk_empty_ops && mk_check_voidcall mk_voidcall_ops = true",
            "C03_custom_data": "cd_check cd_layout = true   (cd_layout = linear forms extracted from myth_create_ex_body on this run)",
+           "C03_publish_after_save": "forallb pub_check bodies = true   (bodies = event lists of the %d switching function bodies extracted on this run)" % len(tr["publish"]["bodies"]),
            "C03_current_tree": "conclusion of C03_ctx_check_sound for all A, B in sites"}
     if rc == 0:
         blocks = re.split(r"(?=Closed under the global context|Axioms:)", out)
@@ -320,7 +337,25 @@ def static_part(ctx, hand_ok):
             ctx.violation("checker", "custom-data carve-out of myth_create_ex_body not accepted by cd_check: " +
                           ("; ".join(cv["unknown"]) or "shape of the linear forms"), body, found=False)
         nviol += 1
-    if not bad and mk_ok and cd_ok:
+    pbs = tr["publish"]["bodies"]
+    pub_bad = [k for k, ok in enumerate(res.get("pub", [])) if not ok] if len(res.get("pub", [])) == len(pbs) else list(range(len(pbs)))
+    if not pub_bad and pbs:
+        ctx.cov["theorems"]["C03_publish_after_save"]["status"] = "checked (in the diagnosis file)"
+        ctx.cov["discharged"] += 1
+    for k in pub_bad:
+        b = pbs[k]
+        f = os.path.relpath(b["file"], vlib.REPO) if b["file"].startswith(vlib.REPO) else b["file"]
+        evs = ["%s %s" % e for e in b["events"]]
+        culprit = [e for e in evs if e.startswith(("PPubSelf", "PSwitchPlainThread"))]
+        ctx.violation("checker", "%s (%s:%d) makes the running thread visible before its context is saved: %s" %
+                      (b["name"], f, b["line"], "; ".join(culprit)),
+                      {"theorem_or_correspondence": "C03_publish_after_save (forallb pub_check bodies = true), body of " + b["name"],
+                       "function": b["name"], "where": "%s:%d" % (f, b["line"]), "events_in_source_order": evs,
+                       "aliases_of_the_running_thread": b["self_aliases"], "translation_units": b["tus"],
+                       "level": "model (event list of the function body; the failing input is an interleaving with a thief, searched by the yield storm of the probe)"},
+                      found=False)
+        nviol += 1
+    if not bad and mk_ok and cd_ok and not pub_bad:
         ctx.violation("proof", "build/C03/gen/CtxAsmGen.v does not compile although every site passes the checker",
                       {"theorem_or_correspondence": "C03_current_tree", "log": out[-3000:]}, found=False)
         nviol += 1
@@ -337,11 +372,16 @@ def build_probe(ctx, opt):
                    flags=vlib.lib_cflags() + ["-O0", "-g", "-fno-omit-frame-pointer"], libs=[lib, "-lpthread", "-ldl", "-lrt"])
 
 
-def run_case(exe, case, timeout=60):
-    w, n, it, seed = case.split()
+def run_case(exe, case, timeout=90):
+    """case = "workers nthreads iters seed"  or the yield storm  "Y workers batch yields_per_thread seed rounds" """
+    f = case.split()
+    if f[0] == "Y":
+        w, args = f[1], [f[2], f[3], f[4], "yield", f[5]]
+    else:
+        w, args = f[0], f[1:4]
     env = dict(os.environ, MYTH_NUM_WORKERS=w)
     try:
-        p = subprocess.run([exe, n, it, seed], env=env, stdout=subprocess.PIPE, stderr=subprocess.STDOUT, text=True,
+        p = subprocess.run([exe] + args, env=env, stdout=subprocess.PIPE, stderr=subprocess.STDOUT, text=True,
                            errors="replace", timeout=timeout)
         return p.returncode, p.stdout.strip()
     except subprocess.TimeoutExpired:
@@ -350,8 +390,21 @@ def run_case(exe, case, timeout=60):
 
 def oracle(case, rc, out):
     """the property itself on one run of the real library; None if it holds"""
-    w, n, it, seed = [int(x) for x in case.split()]
     last = out.split("\n")[-1] if out else ""
+    if case.startswith("Y"):
+        _, w, n, it, seed, rounds = case.split()
+        f = dict(m.groups() for m in re.finditer(r"(\w+)=(-?\d+)", last))
+        if rc == 124:
+            return "yield storm did not terminate"
+        if rc not in (0, 1) or not last.startswith(("ok", "FAIL")):
+            return "yield storm crashed (exit status %d%s): %s" % (rc, ", SIGSEGV" if rc in (-11, 139) else "", last[-200:] or "no output")
+        for k in ("two_workers", "reg_bad", "stack_bad"):
+            if int(f.get(k, "1")) != 0:
+                return "%s=%s: %s" % (k, f.get(k), last.split("first=", 1)[-1])
+        if int(f.get("yields", "-1")) != int(n) * int(it) * int(rounds):
+            return "yield storm executed %s yields instead of %d" % (f.get("yields"), int(n) * int(it) * int(rounds))
+        return None
+    w, n, it, seed = [int(x) for x in case.split()]
     f = dict(m.groups() for m in re.finditer(r"(\w+)=(-?\d+)", last))
     if rc == 124:
         return "probe did not terminate"
@@ -380,6 +433,12 @@ def gen_cases(ctx, n):
         cases.append("%d %d %d %d" % (w, r.choice([2, 4, 6, 8]), r.rng(30, 70), r.rng(1, 10 ** 6)))
     for _ in range(n):
         cases.append("%d %d %d %d" % (r.rng(1, 8), r.rng(1, 10), r.rng(10, 80), r.rng(1, 10 ** 6)))
+    # yield storm: batches of short threads rotating through one worker's run queue with myth_yield_ex of every
+    # option while the other workers steal; registers, stack array and the running-on-two-workers detector
+    # are checked after every yield
+    rounds = 1200 if not ctx.thorough else 4000
+    for w in ([4, 8, 2, 3, 6] if not ctx.thorough else [2, 3, 4, 5, 6, 7, 8, 4, 8]):
+        cases.append("Y %d %d %d %d %d" % (w, r.choice([32, 48]), r.choice([30, 40]), r.rng(1, 10 ** 6), rounds))
     return cases
 
 
@@ -428,8 +487,12 @@ def dynamic_part(ctx, tr):
         for c in cases:
             rc, out = run_case(exe, c)
             stats["cases"] += 1
-            w = c.split()[0]
+            w = c.split()[1] if c.startswith("Y") else c.split()[0]
             stats["by_workers"][w] = stats["by_workers"].get(w, 0) + 1
+            if c.startswith("Y"):
+                stats["yield_storm_cases"] = stats.get("yield_storm_cases", 0) + 1
+                ym = re.search(r"yields=(\d+)", out)
+                stats["yield_storm_yields"] = stats.get("yield_storm_yields", 0) + (int(ym.group(1)) if ym else 0)
             f = dict(m.groups() for m in re.finditer(r"(\w+)=(-?\d+)", out.split("\n")[-1] if out else ""))
             for k, fk in (("ops", "ops"), ("callback_entries_sampled", "switches_cb"), ("thread_entries_sampled", "entries"),
                           ("migrations", "migrations"), ("children", "children")):
@@ -446,8 +509,8 @@ def dynamic_part(ctx, tr):
                     layout_diffs.append((opt, c, hl, "model (stk-hint, stk-rsp0) = %s, measured %s" % (pred, got)))
                 if len(stats["hint_layout_samples"]) < 8 and hl not in stats["hint_layout_samples"]:
                     stats["hint_layout_samples"].append(hl)
-            if len(ctx.cov["samples"]) < 8 and c == cases[len(corpus)]:
-                ctx.cov["samples"].append({"case": "workers nthreads iters seed = " + c, "library": opt, "impl": out[-300:]})
+            if len(ctx.cov["samples"]) < 9 and (c == cases[len(corpus)] or c == cases[-1]):
+                ctx.cov["samples"].append({"case": ("yield storm: Y workers batch yields seed rounds = " if c.startswith("Y") else "workers nthreads iters seed = ") + c, "library": opt, "impl": out[-300:]})
     stats["oracle_failures"] = len(failing)
     stats["disagreements"] = len(layout_diffs)
     ctx.cov["correspondence"] = stats
@@ -514,6 +577,18 @@ def replay(ctx, path):
                 print("current tree at that site:", "; ".join(st["text"]))
                 break
         return 0
+    if str(body.get("theorem_or_correspondence", "")).startswith("C03_publish_after_save"):
+        print("recorded:", body.get("function"), body.get("where"))
+        for e in body.get("events_in_source_order", []):
+            print("    ", e)
+        tr = T.translate(gen_dir(ctx), ["-O0"])
+        print("current tree (%s):" % vlib.REPO)
+        for b in tr["publish"]["bodies"]:
+            if b["name"] == body.get("function"):
+                evs = ["%s %s" % e for e in b["events"]]
+                print("   %s: %s" % (b["name"], "; ".join(evs)))
+                print("   model: pub_check =", not any(e.startswith(("PPubSelf", "PSwitchPlainThread")) for e in evs))
+        return 0
     if str(body.get("theorem_or_correspondence", "")).startswith(("C03_custom_data", "C03_make_context")):
         print("recorded:")
         for e in body.get("observed", []) or [body.get("what")]:
@@ -532,6 +607,13 @@ def replay(ctx, path):
     if "case" in body and "library_opt" in body:
         exe = build_probe(ctx, body["library_opt"])
         rc, out = run_case(exe, body["case"])
+        if body["case"].startswith("Y"):
+            # the failing input is an interleaving with a thief: repeat the same case until it shows again
+            for attempt in range(1, 13):
+                if oracle(body["case"], rc, out):
+                    break
+                rc, out = run_case(exe, body["case"])
+            print("yield storm (timing dependent) - attempts:", attempt)
         print("case (workers nthreads iters seed):", body["case"], " library", body["library_opt"])
         print("impl:  ", out, "(exit %d)" % rc)
         print("oracle:", oracle(body["case"], rc, out))
